@@ -225,7 +225,7 @@ def tasks(tier, seed):
     dz = ["America/New_York", "Europe/Paris", "Australia/Lord_Howe", "Asia/Kolkata"]
     for j, z in enumerate(dz if not quick else [dz[seed % len(dz)]]):
         add("epoch:epoch_ms:%s:pos" % z, "h_epoch", {"form": "epoch_ms", "tz": z, "negative": False,
-                                                       "window": [2021, 2021] if quick else [1971, 2037]}, 200)
+                                                       "window": [2021, 2021] if quick else [1971, 2036]}, 200)
     return out
 
 
